@@ -48,7 +48,7 @@ import (
 // ClassSelectExtra: Select with sels that contain, besides the required
 // columns, a column outside the requirement ("it is ok for sels to contain
 // extra columns, they will be ignored" - query.go) panics "Sels.Get can't
-// find <col>": Times.Select forwards the part for its second source although
+// find <col>" (or the assertion in selEnd that some index column has a value): Times.Select forwards the part for its second source although
 // that was set up without a requirement, and Where.Select no longer recognises
 // that its fixed values satisfy the select and forwards it to a table read by
 // another index.
@@ -95,7 +95,8 @@ var triage *os.File
 func (ck *checker) fail(env *qh.Env, q *qm.Q, pc qh.PlanCase, what, format string, a ...any) {
 	msg := fmt.Sprintf(format, a...)
 	class := env.Classify(q)
-	if class == "" && what == "select-extra" && strings.Contains(msg, "panic: Sels.Get can't find") {
+	if class == "" && what == "select-extra" &&
+		(strings.Contains(msg, "panic: Sels.Get can't find") || strings.Contains(msg, "panic: ASSERT FAILED")) {
 		class = ClassSelectExtra
 	}
 	if triage != nil {
